@@ -158,6 +158,8 @@ func bulkBuiltArgs() []any {
 		}
 	}
 	for sh := 0; sh < 16; sh++ {
+		// byte arrays converted from byte slices (every length, every estimated-size argument)
+		args = append(args, c17Arg{T: 256, Mode: "bytes", From: 0, To: 150, Shard: sh, Shards: 16})
 		args = append(args, c17Arg{T: 256, Mode: "arr-tails", From: 8, To: 70, Tail: 3, Shard: sh, Shards: 16})
 		args = append(args, c17Arg{T: 256, Mode: "map-batch", From: 0, To: 40, Shard: sh, Shards: 16})
 	}
@@ -218,9 +220,24 @@ func init() {
 		r.Assumptions = d1Assumptions()
 		or := []string{"sem", "reach", "health"}
 		cl, tr := d1Spaces(r, or, "aux")
+		for i := range cl {
+			if cl[i].Kind == "arr-small" {
+				// rejected requests are part of histories too: out-of-range Get/Set/Insert/Remove with EVERY value
+				// class (values too large to inline, nested containers) must not leave a slab behind
+				cl[i].Oracles = append(append([]string{}, cl[i].Oracles...), "oob")
+				if cl[i].Extra == nil {
+					cl[i].Extra = map[string]int{}
+				}
+				cl[i].Extra["ooball"] = 1
+			}
+		}
 		r.ExploreSpecs(cl)
 		r.ExploreSpecs(tr)
 		r.ExploreSpecs(collSpecs(r, or, []string{"t", "s60", "limM+"}))
 		r.ExploreSpecs(nestedFor(r, or))
+		r.ExploreSpecs([]Spec{
+			{Name: "reach-rej-nested-arr", Kind: "nested", T: 256, Keys: 2, Classes: []string{"t", "h", "limA+", "A"}, Oracles: []string{"sem", "reach"},
+				Extra: map[string]int{"rootmap": 0, "lr": 2, "lc": 2, "maxc": 2, "depth": 2, "nosettype": 1, "rej": 1, "detach": 1}},
+		})
 	}})
 }
